@@ -70,8 +70,11 @@ mod native {
             }
             let (v, i) = b.as_mut().unwrap();
             if *i >= v.len() {
-                println!("ZV_REPLAY_EXHAUSTED at value #{}", *i);
-                std::process::exit(79);
+                // a value the counterexample does not depend on may be missing from the trace:
+                // any completion is valid, use zero (a violated assume() is still detected)
+                println!("ZV_REPLAY_PADDED value #{} = 0", *i);
+                *i += 1;
+                return vec![0u8; n];
             }
             let mut x = v[*i].clone();
             *i += 1;
